@@ -1083,26 +1083,27 @@ func (s *ClientSession) closePublishersWithoutPermission() {
 	s.mu.Lock()
 	defer s.mu.Unlock()
 
-	if !s.hasPermissionLocked(PERMISSION_MAY_PUBLISH_MEDIA) {
-		if publisher, found := s.publishers[StreamTypeVideo]; found {
-			if (publisher.HasMedia(MediaTypeAudio) && !s.hasPermissionLocked(PERMISSION_MAY_PUBLISH_AUDIO)) ||
-				(publisher.HasMedia(MediaTypeVideo) && !s.hasPermissionLocked(PERMISSION_MAY_PUBLISH_VIDEO)) {
-				delete(s.publishers, StreamTypeVideo)
-				log.Printf("Session %s is no longer allowed to publish media, closing publisher %s", s.PublicId(), publisher.Id())
-				go func() {
-					publisher.Close(context.Background())
-				}()
+	for streamType, publisher := range s.publishers {
+		if streamType == StreamTypeScreen {
+			if s.hasPermissionLocked(PERMISSION_MAY_PUBLISH_SCREEN) {
+				continue
+			}
+		} else {
+			if s.hasPermissionLocked(PERMISSION_MAY_PUBLISH_MEDIA) {
+				continue
+			}
+
+			if (!publisher.HasMedia(MediaTypeAudio) || s.hasPermissionLocked(PERMISSION_MAY_PUBLISH_AUDIO)) &&
+				(!publisher.HasMedia(MediaTypeVideo) || s.hasPermissionLocked(PERMISSION_MAY_PUBLISH_VIDEO)) {
+				continue
 			}
 		}
-	}
-	if !s.hasPermissionLocked(PERMISSION_MAY_PUBLISH_SCREEN) {
-		if publisher, found := s.publishers[StreamTypeScreen]; found {
-			delete(s.publishers, StreamTypeScreen)
-			log.Printf("Session %s is no longer allowed to publish screen, closing publisher %s", s.PublicId(), publisher.Id())
-			go func() {
-				publisher.Close(context.Background())
-			}()
-		}
+
+		delete(s.publishers, streamType)
+		log.Printf("Session %s is no longer allowed to publish %s, closing publisher %s", s.PublicId(), streamType, publisher.Id())
+		go func(publisher McuPublisher) {
+			publisher.Close(context.Background())
+		}(publisher)
 	}
 }
 
